@@ -8,6 +8,7 @@
 //    Config it was created with, answers is_send_pending() arbitrarily, delivers 0..1 packets per
 //    receive(), and logs the order of calls.
 //  * rand::random::<u32>() in the server -> any u32 (recorded).
+//  * Client::now_ms / Server::now_ms (Instant::now() - time_base) -> a millisecond clock set by the obligation.
 //
 //@inject src/client/mod.rs :: ^use std::net;$ :: #[cfg(not(kani))]\nuse std::net;\n#[cfg(kani)]\nuse crate::verif_env::net;
 //@inject src/server/mod.rs :: ^use std::net;$ :: #[cfg(not(kani))]\nuse std::net;\n#[cfg(kani)]\nuse crate::verif_env::net;
@@ -16,6 +17,8 @@
 //@inject src/client/mod.rs :: ^use crate::half_connection;$ :: #[cfg(not(kani))]\nuse crate::half_connection;\n#[cfg(kani)]\nuse crate::verif_env::opaque as half_connection;
 //@inject src/server/mod.rs :: ^use crate::half_connection;$ :: #[cfg(not(kani))]\nuse crate::half_connection;\n#[cfg(kani)]\nuse crate::verif_env::opaque as half_connection;
 //@inject src/server/remote_client.rs :: ^use crate::half_connection::HalfConnection;$ :: #[cfg(not(kani))]\nuse crate::half_connection::HalfConnection;\n#[cfg(kani)]\nuse crate::verif_env::opaque::HalfConnection;
+//@inject src/client/mod.rs :: let now = time::Instant::now\(\);\n\s+\(now - self\.time_base\)\.as_millis\(\) as u64 :: #[cfg(kani)]\n        let r = crate::verif_env::clock_ms();\n        #[cfg(not(kani))]\n        let r = { let now = time::Instant::now(); (now - self.time_base).as_millis() as u64 };\n        r
+//@inject src/server/mod.rs :: let now = time::Instant::now\(\);\n\s+\(now - self\.time_base\)\.as_millis\(\) as u64 :: #[cfg(kani)]\n        let r = crate::verif_env::clock_ms();\n        #[cfg(not(kani))]\n        let r = { let now = time::Instant::now(); (now - self.time_base).as_millis() as u64 };\n        r
 //@inject src/server/mod.rs :: let local_nonce = rand::random::<u32>\(\); :: #[cfg(not(kani))]\n        let local_nonce = rand::random::<u32>();\n        #[cfg(kani)]\n        let local_nonce = crate::verif_env::random_u32();
 
 #![allow(dead_code)]
@@ -28,6 +31,10 @@ pub fn fake_instant() -> std::time::Instant {
     unsafe { std::mem::transmute::<Ts, std::time::Instant>(Ts { s: 0, n: 0 }) }
 }
 
+// Millisecond clock behind Client::now_ms / Server::now_ms (Instant::now() is a foreign call): the obligation sets it.
+pub static mut CLOCK_MS: u64 = 0;
+pub fn clock_ms() -> u64 { unsafe { CLOCK_MS } }
+
 pub static mut RANDOM_LAST: u32 = 0;
 pub static mut RANDOM_CALLS: u32 = 0;
 pub static mut RANDOM_FIXED: Option<u32> = None;
@@ -36,6 +43,15 @@ pub fn random_u32() -> u32 {
     // and with it the control flow through the Rc/RefCell-heavy handlers, concrete)
     let v: u32 = match unsafe { RANDOM_FIXED } { Some(x) => x, None => kani::any() };
     unsafe { RANDOM_LAST = v; RANDOM_CALLS += 1; }
+    v
+}
+
+pub static mut RANDOM_BOOL_LAST: bool = false;
+pub static mut RANDOM_BOOL_FIXED: Option<bool> = None;
+pub fn random_bool() -> bool {
+    // any bool; an obligation whose control flow depends on the nonce (acknowledgement validation) pins it per instance
+    let v: bool = match unsafe { RANDOM_BOOL_FIXED } { Some(x) => x, None => kani::any() };
+    unsafe { RANDOM_BOOL_LAST = v; }
     v
 }
 
